@@ -1,0 +1,62 @@
+//go:build verif
+
+// Contracts for the deductive checker in /verif (read only with -tags verif).
+
+package xts
+
+// tweak update: generic code in the purego build, assembly otherwise (assumed: in place, 16 bytes)
+//@ func mul2 trusted property C03 cfg default
+//@   modifies *tweak
+//@ func doubleTweaks trusted property C03 cfg default
+//@   requires len(tweaks) % 16 == 0
+//@   modifies *tweak, tweaks[0..len(tweaks)]
+
+// a cipher that processes one batch of CONC blocks per call (assumed interface contract)
+//@ func iface:github.com/emmansun/gmsm/internal/cipher/xts.concurrentBlocks.Concurrency trusted
+//@   ensures result == CONC(id(self)) && 1 <= result && result <= 64
+//@   modifies nothing
+//@ func iface:github.com/emmansun/gmsm/internal/cipher/xts.concurrentBlocks.EncryptBlocks trusted
+//@   requires len(src) >= 16 * CONC(id(self)) && len(dst) >= 16 * CONC(id(self))
+//@   modifies dst[0..16 * CONC(id(self))]
+//@ func iface:github.com/emmansun/gmsm/internal/cipher/xts.concurrentBlocks.DecryptBlocks trusted
+//@   requires len(src) >= 16 * CONC(id(self)) && len(dst) >= 16 * CONC(id(self))
+//@   modifies dst[0..16 * CONC(id(self))]
+
+// Structure of the data unit: every byte position is processed. With a partial last block
+// (r = len mod 16 in 1..15) the block loops have to leave the last full block for ciphertext stealing,
+// so at every return the unprocessed rest is empty or was handled by the stealing branch.
+//@ func (*xtsDecrypter).CryptBlocks property C03
+//@   requires c.b != nil && BS(id(c.b)) == 16 && !sameobj(plaintext, c.tweak) && !sameobj(ciphertext, c.tweak)
+//@   panics iff len(plaintext) < len(ciphertext) || len(ciphertext) < 16 || (sameobj(plaintext, ciphertext) && offof(plaintext) != offof(ciphertext) && offof(plaintext) < offof(ciphertext) + len(ciphertext) && offof(ciphertext) < offof(plaintext) + len(ciphertext))
+//@   modifies plaintext[0..len(plaintext)], c.tweak
+//@   loop 1 invariant len(ciphertext) >= 0 && len(plaintext) >= len(ciphertext) && len(old(ciphertext)) - len(ciphertext) >= 0 && (len(old(ciphertext)) - len(ciphertext)) % 16 == 0 && len(tweaks) == batchSize && batchSize == 16 * CONC(id(concCipher)) && batchSize >= 16
+//@   loop 1 invariant sameobj(plaintext, old(plaintext)) && offof(plaintext) - offof(old(plaintext)) == len(old(ciphertext)) - len(ciphertext) && len(plaintext) == len(old(plaintext)) - (offof(plaintext) - offof(old(plaintext)))
+//@   loop 1 invariant len(ciphertext) >= 16 || len(ciphertext) == 0
+//@   loop 1 invariant onlychanged(old(plaintext))
+//@   loop 1 decreases len(ciphertext)
+//@   loop 2 invariant len(ciphertext) >= 0 && len(plaintext) >= len(ciphertext) && (len(old(ciphertext)) - len(ciphertext)) % 16 == 0 && len(old(ciphertext)) - len(ciphertext) >= 0
+//@   loop 2 invariant sameobj(plaintext, old(plaintext)) && offof(plaintext) - offof(old(plaintext)) == len(old(ciphertext)) - len(ciphertext) && len(plaintext) == len(old(plaintext)) - (offof(plaintext) - offof(old(plaintext)))
+//@   loop 2 invariant len(ciphertext) >= 16 || len(ciphertext) == 0
+//@   loop 2 invariant onlychanged(old(plaintext))
+//@   loop 2 decreases len(ciphertext)
+//@   assert at return: len(ciphertext) == 0 || len(ciphertext) >= 16
+//@   assert after call *: onlychanged(old(plaintext))
+
+//@ func (*xtsEncrypter).CryptBlocks property C03
+//@   requires c.b != nil && BS(id(c.b)) == 16 && !sameobj(plaintext, c.tweak) && !sameobj(ciphertext, c.tweak)
+//@   panics iff len(ciphertext) < len(plaintext) || len(plaintext) < 16 || (sameobj(ciphertext, plaintext) && offof(ciphertext) != offof(plaintext) && offof(ciphertext) < offof(plaintext) + len(plaintext) && offof(plaintext) < offof(ciphertext) + len(plaintext))
+//@   modifies ciphertext[0..len(ciphertext)], c.tweak
+//@   loop 1 invariant len(plaintext) >= 0 && len(ciphertext) >= len(plaintext) && len(old(plaintext)) - len(plaintext) >= 0 && (len(old(plaintext)) - len(plaintext)) % 16 == 0 && len(tweaks) == batchSize && batchSize == 16 * CONC(id(concCipher)) && batchSize >= 16
+//@   loop 1 invariant sameobj(ciphertext, old(ciphertext)) && offof(ciphertext) - offof(old(ciphertext)) == len(old(plaintext)) - len(plaintext) && len(ciphertext) == len(old(ciphertext)) - (offof(ciphertext) - offof(old(ciphertext)))
+//@   loop 1 invariant sameobj(lastCiphertext, old(ciphertext)) && offof(old(ciphertext)) <= offof(lastCiphertext) && offof(lastCiphertext) + len(lastCiphertext) == offof(old(ciphertext)) + len(old(ciphertext))
+//@   loop 1 invariant len(old(plaintext)) - len(plaintext) >= 16 ==> offof(lastCiphertext) == offof(ciphertext) - 16
+//@   loop 1 invariant onlychanged(old(ciphertext))
+//@   loop 1 decreases len(plaintext)
+//@   loop 2 invariant len(plaintext) >= 0 && len(ciphertext) >= len(plaintext) && len(old(plaintext)) - len(plaintext) >= 0 && (len(old(plaintext)) - len(plaintext)) % 16 == 0
+//@   loop 2 invariant sameobj(ciphertext, old(ciphertext)) && offof(ciphertext) - offof(old(ciphertext)) == len(old(plaintext)) - len(plaintext) && len(ciphertext) == len(old(ciphertext)) - (offof(ciphertext) - offof(old(ciphertext)))
+//@   loop 2 invariant sameobj(lastCiphertext, old(ciphertext)) && offof(old(ciphertext)) <= offof(lastCiphertext) && offof(lastCiphertext) + len(lastCiphertext) == offof(old(ciphertext)) + len(old(ciphertext))
+//@   loop 2 invariant len(old(plaintext)) - len(plaintext) >= 16 ==> offof(lastCiphertext) == offof(ciphertext) - 16
+//@   loop 2 invariant onlychanged(old(ciphertext))
+//@   loop 2 decreases len(plaintext)
+//@   assert after call *: onlychanged(old(ciphertext))
+//@   assert at return: len(plaintext) < 16 && len(old(plaintext)) - len(plaintext) >= 16
